@@ -28,6 +28,7 @@ func init() {
 			{ID: "C02-R5", Title: "initializer compiled before the declared name is inserted", Floor: 2, Run: c02r5},
 			{ID: "C02-R6", Title: "frame slots are unique per function", Floor: 2, Run: c02r6},
 			{ID: "C02-R7", Title: "the dispatch loop keeps no stale copy of the frame's locals", Floor: 1, Run: dispatchUsesLiveFrameState},
+			{ID: "C02-R8", Title: "sibling sites agree on the inline/heap boundary of frame locals", Floor: 1, Run: func(c *core.Ctx) { boundaryAgreement(c, "vm") }},
 		},
 	})
 }
@@ -334,13 +335,25 @@ func c02r4(c *core.Ctx) {
 				return true
 			}
 			k, _ := objOf(info, ce.Args[0]).(*types.Const)
-			if k == nil || want[k.Name()] == "" {
+			if k == nil {
+				return true
+			}
+			wantK := want[k.Name()]
+			if k.Name() == "MakeCell" && len(ce.Args) == 3 {
+				// second operand 0: a slot of the active frame; otherwise: a position in the active closure's free list
+				if v, isC := constInt(info, ce.Args[2]); isC && v == 0 {
+					wantK = "sym"
+				} else {
+					wantK = "free"
+				}
+			}
+			if wantK == "" {
 				return true
 			}
 			n++
 			idx[k.Name()]++
 			free, sym := kind(ce.Args[1], 0)
-			ok2 := (want[k.Name()] == "free" && free && !sym) || (want[k.Name()] == "sym" && sym && !free)
+			ok2 := (wantK == "free" && free && !sym) || (wantK == "sym" && sym && !free)
 			// scope switch agreement
 			scopeBad := ""
 			for i := len(stack) - 1; i >= 0; i-- {
@@ -363,7 +376,7 @@ func c02r4(c *core.Ctx) {
 				break
 			}
 			c.Check(ok2 && scopeBad == "", "compiler."+declName(fd)+"|"+k.Name()+"#"+itoa(idx[k.Name()])+"|operand-namespace", posOf(p, ce),
-				k.Name()+" takes "+map[string]string{"free": "the position in the closure's free-variable list (Resolution.freeIndex)", "sym": "the slot of the symbol (Symbol.Index())"}[want[k.Name()]]+
+				k.Name()+" takes "+map[string]string{"free": "the position in the closure's free-variable list (Resolution.freeIndex, nothing else)", "sym": "the slot of the symbol (Symbol.Index())"}[wantK]+
 					"; operand is "+exprStr(ce.Args[1])+ifs(scopeBad != "", "; "+scopeBad))
 			return true
 		})
